@@ -150,18 +150,16 @@ class ProcessTemplateLine:
 
 
 # =================================================================== which sections are missing (property level)
-def present_normalised(existing_config, s):
-    """Some existing top-level key normalises to the same name as template section s. Template section names contain
-    at most one separator, so the keys that normalise like s are its hyphen and its underscore spelling."""
-    return s.replace("-", "_") in existing_config or s.replace("_", "-") in existing_config
-
-
-@contract(M + "identify_missing_sections", props=["C20"], types=dict(existing_config=Dict, all_sections=SeqOf(Str)),
+@contract(M + "identify_missing_sections", props=["C20"],
+          types=dict(existing_config=Assoc(Any), all_sections=SeqOf(Str), existing_names=SeqOf(Str)),
           returns=SeqOf(Str), effects=[])
 class IdentifyMissingSections:
-    def ensures_missing_iff_raw_spelling_absent(existing_config, all_sections, result):
-        # finding-adjusted: the template's own (hyphenated) spelling is compared verbatim
-        return result == [s for s in all_sections if s not in existing_config]
+    """A template section is missing iff no existing top-level key NORMALISES (hyphens -> underscores, like the loader)
+    to the same name."""
+
+    def ensures_missing_iff_no_key_normalises_to_it(existing_config, all_sections, result):
+        return result == [s for s in all_sections
+                          if s.replace("-", "_") not in [str(key).replace("-", "_") for key in existing_config]]
 
 
 HYPHENATED = ("magic-numbers", "file-placement", "print-statements", "stringly-typed", "file-header", "method-property",
@@ -170,20 +168,12 @@ HYPHENATED = ("magic-numbers", "file-placement", "print-statements", "stringly-t
 
 @lemma(props=["C20"], types=dict(v=Int), name="init-config-keeps-underscore-spelled-section")
 def underscore_section_is_not_missing(v):
-    """Property text: a template section is missing iff no existing top-level key NORMALISES to the same name. An existing
-    `magic_numbers:` section (the spelling the loader itself produces, and the one docs/stringly-typed-linter.md uses)
-    must therefore not be reported missing -- for every section name that has two spellings.
-    (Expected to fail: known finding C20-init-config-shadows-underscore-section.)"""
-    return all(call(M + "identify_missing_sections", {n.replace("-", "_"): v}, [n]) == [] for n in HYPHENATED)
-
-
-@lemma(props=["C20"], types=dict(v=Int), name="init-config-underscore-section-reported-missing-adjusted")
-def underscore_section_adjusted(v):
-    """Finding-adjusted: raw spellings are compared -- exactly the hyphenated name is reported for an underscore key,
-    nothing is reported when the hyphenated key exists, and a section without a second spelling behaves as specified."""
-    return all(call(M + "identify_missing_sections", {n.replace("-", "_"): v}, [n]) == [n]
-               and call(M + "identify_missing_sections", {n: v}, [n]) == [] for n in HYPHENATED) \
-        and call(M + "identify_missing_sections", {"nesting": v}, ["nesting", "srp"]) == ["srp"]
+    """Property text at witness level, for every section name that has two spellings: an existing `magic_numbers:`
+    section (the spelling the loader itself produces, and the one docs/stringly-typed-linter.md uses) is not reported
+    missing, neither is the hyphenated spelling, and an absent section is."""
+    return all(call(M + "identify_missing_sections", {n.replace("-", "_"): v}, [n]) == []
+               and call(M + "identify_missing_sections", {n: v}, [n]) == []
+               and call(M + "identify_missing_sections", {"nesting": v}, [n, "nesting"]) == [n] for n in HYPHENATED)
 
 
 # =================================================================== splicing the missing sections into the text
